@@ -400,7 +400,7 @@ def check_C06(ctx):
     gf = os.path.join(ctx.scratch, 'grammar.tsv'); open(gf, 'w').write(''.join(f'{g[0]}\t{g[1]}\n' for g in gr))
     paths = ctx.run_driver(b, 'c06_replay', shards=8, extra=f'file={gf}', timeout=900)
     ctx.validate(paths)
-    trace_drivers(ctx, [('c06_mpz', 16, 1500), ('c06_long', 16, 1500), ('c06_misc', 2, 600), ('c06_mpn', 8, 900)], pure_drivers=['c06_mpz', 'c06_mpn'])
+    trace_drivers(ctx, [('c06_mpz', 16, 1500), ('c06_long', 16, 1500), ('c06_misc', 2, 600), ('c06_mpn', 8, 900), ('c06_bigbase', 14, 900)], pure_drivers=['c06_mpz', 'c06_mpn', 'c06_bigbase'])      # c06_bigbase: limbs drawn from the conversion's own constants (big_base, big_base+-1)
     return ctx.finish('model_checking',
         rule='R2: RadixText = round trip / alphabet / length / sizeinbase for every |v|<=M in all 96 bases, and ParseNum on EVERY string of length <= L over a 12-character alphabet '
              'in 8 bases (each printed and replayed into mpz_set_str, mpq_set_str, mpz_init_set_str). R3/R1: get_str/sizeinbase/set_str in every base 2..62 and -2..-36 at sizes on both '
